@@ -44,6 +44,10 @@ def hash_class(name: str):
         def f(it, k):
             return Sc(1 + (k.val << 20), 'u64') if isinstance(k.val, int) else Sc(z3.BitVecVal(1, 64) + (z3.ZeroExt(64 - KEY_W, k.val) << 20), 'u64')
         return f, (lambda keys: [])
+    if name == 'mixed':         # one bin, four full hashes: keys with equal k & 3 share their whole hash, the classes differ (partial collisions)
+        def f(it, k):
+            return Sc(1 + ((k.val & 3) << 20), 'u64') if isinstance(k.val, int) else Sc(z3.BitVecVal(1, 64) + ((z3.ZeroExt(64 - KEY_W, k.val) & 3) << 20), 'u64')
+        return f, (lambda keys: [])
     if name == 'split':         # collide in tables of up to 64 bins, spread over the halves at every later doubling
         def f(it, k):
             return Sc(1 + (k.val << 6), 'u64') if isinstance(k.val, int) else Sc(z3.BitVecVal(1, 64) + (z3.ZeroExt(64 - KEY_W, k.val) << 6), 'u64')
